@@ -13,6 +13,7 @@ import (
 	"os"
 	"runtime"
 	"strings"
+	"time"
 )
 
 type item struct {
@@ -227,8 +228,8 @@ func MapOrdersIn(fn string) {}
 func Sched(list string) {}
 
 // Yield(): an explicit switch point under the engine's scheduler (another goroutine may run here; counts
-// against the preemption bound). Natively runtime.Gosched().
-func Yield() { runtime.Gosched() }
+// against the preemption bound). Natively the goroutine sleeps a few milliseconds so that the others get to run.
+func Yield() { runtime.Gosched(); time.Sleep(3 * time.Millisecond) }
 
 // SchedPreempt(n): bound on preemptive context switches per path in the engine's scheduler (default 1);
 // switches at blocking operations are never bounded.
